@@ -93,6 +93,7 @@ def histories(rep, rnd, tier):
         steps = rnd.randint(30, 60) if tier == 'quick' else rnd.randint(60, 300)
         produced = []
         forced = []
+        live = None
         for step in range(steps):
             r = rnd.random()
             d = rnd.choice([DI.UP, DI.DOWN])
@@ -152,6 +153,18 @@ def histories(rep, rnd, tier):
             if r < 0.55 or (not produced and s_f is None):
                 pkt = pkt_f if pkt_f is not None else (rnd.choice(seeds)[1] if rnd.random() < 0.8 else (gen_packet(rnd)[1] if rnd.random() < 0.5 else rnd.randbytes(rnd.randint(0, 40))))
                 buf = Buffer(pkt, len(pkt) * 8)
+                if pkt_f is None and rnd.random() < 0.25:
+                    # the caller keeps ONE packet buffer, rewrites some of its bytes in place and submits the same object again:
+                    # the manager must compress what the buffer holds now
+                    if live is None:
+                        live = buf
+                    else:
+                        k_ = rnd.randrange(0, max(1, live.length - 16) // 8 + 1) * 8
+                        if live.length >= k_ + 16:
+                            live[k_:k_ + 16] = mk(randbits(rnd, 16))
+                        buf = live
+                    pkt = bytes(int(bits_of(buf)[i_:i_ + 8], 2) for i_ in range(0, buf.length, 8))
+                    rep.hist['history:same-buffer-object-resubmitted'] = rep.hist.get('history:same-buffer-object-resubmitted', 0) + 1
                 bufs, before = snap([buf, ctx, cm])
                 o1 = obs_bits(with_timeout(lambda: cm.compress(buf, direction=d, match_strategy=strat)))
                 ch = changed(bufs, before)
